@@ -153,6 +153,28 @@ static std::string runCache(long dflt, const std::string &ops)
       r.header.id = static_cast<std::uint16_t>(std::stoi(p[5]));
       cache.putNegative(q, r, static_cast<std::uint32_t>(std::stoul(p[6])), "neg");
     }
+    else if (k == "A")
+    {
+      // putNegative without an explicit TTL: the negative TTL is computed from the response (SOA MINIMUM / TTL)
+      DnsResult r;
+      r.header.id = static_cast<std::uint16_t>(std::stoi(p[5]));
+      if (p[6] != "-")
+        for (auto &x : split(p[6], ','))
+        {
+          auto mt = split(x, '/');
+          r.soa_records.emplace_back("zone", "ns", "admin", 1, 2, 3, 4, static_cast<std::uint32_t>(std::stoul(mt[0])),
+                                     static_cast<std::uint32_t>(std::stoul(mt[1])));
+        }
+      if (p[7] != "-")
+        for (auto &x : split(p[7], ','))
+        {
+          DnsResourceRecord rr;
+          rr.type = x[0] == 'S' ? DnsType::SOA : DnsType::NS;
+          rr.ttl = static_cast<std::uint32_t>(std::stoul(x.substr(1)));
+          r.authority.push_back(rr);
+        }
+      cache.putNegative(q, r, "neg");
+    }
     else if (k == "G")
     {
       DnsResult r;
